@@ -321,7 +321,7 @@ let pr_archive hsh (a : archive) : string =
   ^ " meta=" ^ meta ^ " idx=" ^ pr_index (build_source_index a)
 
 let e_invalid = n_of_int 10
-let run_tryinit toks =
+let rec run_tryinit_gen coarse toks =
   match toks with
   | [ b; hh ] ->
       let f = bytes_of_hex b in
@@ -337,11 +337,12 @@ let run_tryinit toks =
         end in
       let hsh = hash_oracle tab in
       (match try_init hsh (file_read_at f) with
-       | Ok a -> pr_archive hsh a
-       | Err e -> if e = e_invalid then "INVALID" else "READER"
+       | Ok a -> if coarse then "OK" else pr_archive hsh a
+       | Err e -> if coarse || e = e_invalid then "INVALID" else "READER"
        | Panic _ -> "PANIC"
        | OutOfFuel -> "FUEL")
   | _ -> failwith "tryinit"
+let run_tryinit toks = run_tryinit_gen false toks
 
 let rec run_compress_v version toks =
   match toks with
@@ -539,6 +540,7 @@ let dispatch (line : string) : string =
   | "protoenc" :: r -> run_protoenc r
   | "protodec" :: r -> run_protodec r
   | "tryinit" :: r -> run_tryinit r
+  | "tryinitok" :: r -> run_tryinit_gen true r
   | "compress" :: r -> run_compress r
   | "compresscli" :: r -> run_compresscli r
   | "cmd" :: r -> run_cmd r
